@@ -68,6 +68,10 @@ class Model:
         self.full_levels = 1 if tier == 'quick' else 2
 
     def initial(self, i):
+        st = self.initial_cold(i % 100); st['warm'] = i >= 100      # 100 + i: the same initial state, read-only calls before every operation
+        return st
+
+    def initial_cold(self, i):
         if i == 0:
             a = Atoms(); ref = RefStructure([], {k: [] for k in KINDS}, None); tabled = None
         elif i in FAR_INITS:
@@ -143,6 +147,13 @@ class Model:
     def apply(self, st, op, step):
         a = _copy.deepcopy(st['a']); ref = st['ref'].copy(); tabled = st['tabled']      # harness-side clone (Atoms.copy is one of the operations under test)
         kind = op[0]
+        if st.get('warm'):
+            # read-only calls a library may be tempted to memoise on the object: none of them may change what later operations do
+            call(lambda: (list(a.elements), len(a), a.num_atom_types, a.num_bond_types))
+            if len(a.atom_types):
+                call(a.save_lmpdat, io.StringIO())
+                if a.cell is not None:
+                    call(a.cell_abc_alpha_beta_gamma); call(a.save_p1_cif, io.StringIO()) if hasattr(a, 'save_p1_cif') else None
         inputs = []          # [(name, object)] handed to the operation besides the structure it works on; must come back untouched and unshared
 
         def real(f, *args, **kw):
@@ -155,20 +166,26 @@ class Model:
             F = frag(fi, tb, step); m = {int(s): int(d) for s, d in m}
             uid0 = 10000 * (step + 1)
             inputs = [('the fragment', F)]; before = [raw_state(F)]
+            mdict = dict(m)
             if kind == 'ext':
                 refF = RefStructure.of(F, uid0=uid0)
-                real(a.extend, F, structure_index_map=dict(m))
+                real(a.extend, F, structure_index_map=mdict)
                 ref.extend(refF, m)
             else:
                 refF = RefStructure.of(F, uid0=uid0, origin=uid0)
-                off = real(a.extend_types, F)
-                real(a.extend, F, offsets=off, structure_index_map=dict(m))
-                ref.extend(refF, m)
                 F2 = _copy.deepcopy(F); F2.translate(np.array([0.0, 0.0, 3.0]))
                 inputs.append(('the second fragment', F2)); before.append(raw_state(F2))
                 refF2 = RefStructure.of(F2, uid0=uid0 + 5000, origin=uid0)
+                off = real(a.extend_types, F)
+                real(a.extend, F, offsets=off, structure_index_map=mdict)
+                ref.extend(refF, m)
+                bad = untouched(before, inputs)
+                if bad:
+                    raise Violation('untouched', 'input-modified', '%r: %s' % (op, '; '.join(bad)))
                 real(a.extend, F2, offsets=off)
                 ref.extend(refF2, {})
+            if mdict != m:
+                raise Violation('untouched', 'input-modified', '%r: extend() changed the identity map it was given: %r -> %r' % (op, m, mdict))
             if tabled is None:
                 tabled = tb
             if ref.cell is None and a.cell is not None:
@@ -235,7 +252,7 @@ class Model:
             if bad:
                 raise Violation('untouched', 'shared-data', '%r: %s' % (op, '; '.join(bad)))
             a = keep
-        return dict(a=a, ref=ref, tabled=tabled)
+        return dict(a=a, ref=ref, tabled=tabled, warm=st.get('warm', False))
 
     # ------------------------------------------------------------------ invariant
     def check(self, st):
@@ -249,6 +266,9 @@ class Model:
         d = compare_views(v, ref.view())
         if d:
             raise Violation('resolved-view', d.split(' ')[0] + (' coeff' if 'resolves to' in d else ''), d)
+        els, err = call(lambda: [str(x) for x in a.elements])
+        if err or els != [x[0] for x in v[0]] or len(a) != len(v[0]):
+            raise Violation('consistent-I1', 'elements-accessor', 'atoms.elements gives %r (len(atoms) = %r), the per-atom types resolve to %r' % (err[0] if err else els, len(a), [x[0] for x in v[0]]))
         if len(a.atom_types) >= 1:
             s = io.StringIO(); _, err = call(a.save_lmpdat, s)
             if err:
@@ -277,7 +297,7 @@ class Model:
                 raise Violation('lammps-readback', d.split(' ')[0], 'the written LAMMPS file does not read back to the same structure: %s' % d)
 
     def key(self, st):
-        return (raw_state(st['a']), st['ref'].view(), st['tabled'])
+        return (raw_state(st['a']), st['ref'].view(), st['tabled'], st.get('warm', False))
 
 
 def file_view(hdr, secs, like):
@@ -314,8 +334,8 @@ def plan(tier, seed):
     scs = []
     for i in range(len(INITS)):
         st = m.initial(i)
-        for op in m.ops(st, 0):
-            scs.append(dict(init=i, first=op))
+        for k, op in enumerate(m.ops(st, 0)):
+            scs.append(dict(init=i + (100 if k % 2 else 0), first=op))      # every second subtree is explored 'warm'
     return dict(scenarios=scs, exhaustive=True, chunk=1, timeout=7200,
                 menus=dict(initial_states=INITS, fragments=FRAGS, replacements=REPL,
                            operations=['extend (fragment x identity map)', 'extend_types + extend twice', 'delete subset', 'pop', 'replicate', 'copy', 'subset', 'replace', 'save_lmpdat+load_lmpdat'],
@@ -335,15 +355,15 @@ def run(sc, ctx):
         out['evals'] = len(sc['history']); out['compared'] = out['evals']
         if bad:
             v = bad[1]
-            out['violations'].append(viol(v.clause, v.sig, 'history %r from "%s": step %d: %s' % (sc['history'], INITS[sc['init']], bad[0], v.msg), sc))
+            out['violations'].append(viol(v.clause, v.sig, 'history %r from "%s": step %d: %s' % (sc['history'], INITS[sc['init'] % 100], bad[0], v.msg), sc))
         return out
-    seen, viols = SG.bfs(m, sc['init'], [sc['first']], 2 if sc['init'] in FAR_INITS else m.depth, stats)
+    seen, viols = SG.bfs(m, sc['init'], [sc['first']], 2 if sc['init'] % 100 in FAR_INITS else m.depth, stats)
     out['hashes'] = seen; out['evals'] = stats['transitions']; out['compared'] = stats['transitions'] + stats['replays']
     out['violating_transitions'] = stats['violating_transitions']; out['max_depth'] = stats['max_depth']; out['replayed_from_initial_state'] = stats['replays']
     for hist, v in viols:
-        out['violations'].append(viol(v.clause, v.sig, 'history %r from "%s": %s' % (hist, INITS[sc['init']], v.msg), dict(init=sc['init'], history=hist)))
-    out['outcomes']['init=%d first=%s' % (sc['init'], sc['first'][0])] = 1
+        out['violations'].append(viol(v.clause, v.sig, 'history %r from "%s": %s' % (hist, INITS[sc['init'] % 100], v.msg), dict(init=sc['init'], history=hist)))
+    out['outcomes']['init=%d first=%s' % (sc['init'] % 100, sc['first'][0])] = 1
     out['nontrivial_hashes'] = set(seen)       # distinct states, counted once across scenarios
-    if sc['init'] == 1 and sc['first'][0] == 'del' and sc['first'][1] == [0]:
+    if sc['init'] % 100 == 1 and sc['first'][0] == 'del' and sc['first'][1] == [0]:
         out['samples'] = [dict(initial=INITS[1], first_operation=sc['first'], depth=m.depth, states_below=len(seen))]
     return out
